@@ -154,6 +154,41 @@ def search(pat: Any, t: Any) -> Iterator[Dict[str, Any]]:
             yield m
 
 
+def alpha(t: Any) -> Any:
+    """Canonical names for the variables bound by the iterations of bag elements, so that
+    `[f(x) for x in xs]`, `list(map(f, xs))` and an append loop over `y` are equal terms."""
+    counter = [0]
+
+    def walk(x: Any, ren: Dict[str, str]) -> Any:
+        if not isinstance(x, tuple):
+            return x
+        if x and x[0] == "var" and len(x) == 2 and x[1] in ren:
+            return ("var", ren[x[1]])
+        if x and x[0] == "elem" and len(x) == 4:
+            ren2 = dict(ren)
+            iters = []
+            for it in x[3]:
+                src = walk(it[2], ren2)
+                for v in sorted(free_vars(it[1])) if it[1] != ("while",) else []:
+                    pass
+                # bind targets in order of appearance
+                def bind(tg):
+                    if isinstance(tg, tuple) and tg and tg[0] == "var":
+                        ren2[tg[1]] = f"§{counter[0]}"
+                        counter[0] += 1
+                        return ("var", ren2[tg[1]])
+                    if isinstance(tg, tuple):
+                        return tuple(bind(y) for y in tg)
+                    return tg
+                iters.append(("it", bind(it[1]), src))
+            return ("elem", walk(x[1], ren2), walk(x[2], ren2), tuple(iters))
+        if x and x[0] == "bag" and len(x) >= 2:
+            return ("bag", tuple(walk(e, ren) for e in x[1])) + (("seq",) if len(x) > 2 else ())
+        return tuple(walk(y, ren) for y in x)
+
+    return walk(strip(t), {})
+
+
 # ----------------------------------------------------------------------------- access paths
 def path_root(t: Term) -> Optional[Term]:
     """Root variable of an access path `root(.f|[i])*`."""
